@@ -3,10 +3,11 @@
 // bind, XEP-0198 enable / resume / failed-resume, connection cut, disconnectFromServer().  Roster
 // results, pushes and presences are written by the server on the open connection.
 //
-// Behaviour: {"steps":[{"a":"Connect","k":"smr"},{"a":"Result","n":1,"items":{"c1":1}},
-//                      {"a":"Push","from":"look1","items":[{"j":"c1","v":0}]}, ...]}
+// Behaviour: {"steps":[{"a":"Connect","k":"smr"},{"a":"Result","n":1,"items":{"c1":{…}}},
+//                      {"a":"Push","from":"look1","items":[{"j":"c1","it":{…item record…}}]}, ...]}
+//   an item record has every field of QXmppRosterIq::Item: {x,n,s,a,ap,g,mx,p} (x=0: absent / remove)
 // Trace line per step (see spec/RosterTrace.tla): the step with its arguments and
-//   o = {view:{c1:v,..}, extra:n, pres:{c1:[..],..}, recv:bool, sm:"none|new|resumed", conn:bool,
+//   o = {view:{c1:{x,n,s,a,ap,g,mx,p},..} (every field of getRosterEntry()), extra:n, pres:{c1:[..],..}, recv:bool, sm:"none|new|resumed", conn:bool,
 //        ack:n, err:n, sig:[..], req:n}
 // view/pres/recv/sm/conn are read from the public getters after the step, ack/err/req from the
 // stanzas the client wrote during the step, sig from the manager's item signals.
@@ -26,15 +27,38 @@ const QString kOwnFull = QStringLiteral("me@example.org/dev1");
 
 QString contactJid(const QString &j) { return j + QStringLiteral("@contacts.example"); }
 
-QString itemXml(const QString &j, int v)
+// An item of spec/Roster.tla is a record over every field QXmppRosterIq::Item parses:
+// {x present, n name, s subscription, a ask, ap approved, g groups, mx MIX channel, p MIX participant-id}.
+QString itemXml(const QString &j, const QJsonObject &it)
 {
-    if (v == 0) {
+    if (it["x"].toInt() == 0) {
         return QStringLiteral("<item jid='%1' subscription='remove'/>").arg(contactJid(j));
     }
-    return QStringLiteral("<item jid='%1' name='n%2' subscription='%3'><group>g%2</group></item>")
-        .arg(contactJid(j))
-        .arg(v)
-        .arg(v == 1 ? "both" : v == 2 ? "to" : "from");
+    QString xml = QStringLiteral("<item jid='%1'").arg(contactJid(j));
+    if (!it["n"].toString().isEmpty()) {
+        xml += QStringLiteral(" name='%1'").arg(it["n"].toString());
+    }
+    if (!it["s"].toString().isEmpty()) {
+        xml += QStringLiteral(" subscription='%1'").arg(it["s"].toString());
+    }
+    if (!it["a"].toString().isEmpty()) {
+        xml += QStringLiteral(" ask='%1'").arg(it["a"].toString());
+    }
+    if (it["ap"].toBool()) {
+        xml += QStringLiteral(" approved='true'");
+    }
+    xml += ">";
+    for (const auto &g : it["g"].toArray()) {
+        xml += QStringLiteral("<group>%1</group>").arg(g.toString());
+    }
+    if (it["mx"].toBool()) {
+        xml += QStringLiteral("<channel xmlns='urn:xmpp:mix:roster:0'");
+        if (!it["p"].toString().isEmpty()) {
+            xml += QStringLiteral(" participant-id='%1'").arg(it["p"].toString());
+        }
+        xml += "/>";
+    }
+    return xml + "</item>";
 }
 
 // sender classes of spec/Roster.tla -> concrete `from` attribute ("" = no attribute)
@@ -73,21 +97,27 @@ struct Env {
         QObject::connect(rm, &QXmppRosterManager::itemRemoved, rm, [this, shortJid](const QString &j) { sig << "removed:" + shortJid(j); });
     }
 
-    int versionOf(const QString &j) const
+    // every field of the entry the manager exposes, in the record shape of the specification
+    QJsonObject entryOf(const QString &j) const
     {
         const auto bare = contactJid(j);
         if (!rm->getRosterBareJids().contains(bare)) {
-            return 0;
+            return { { "x", 0 }, { "n", "" }, { "s", "" }, { "a", "" }, { "ap", false }, { "g", QJsonArray() }, { "mx", false }, { "p", "" } };
         }
         const auto e = rm->getRosterEntry(bare);
-        for (int v = 1; v <= 3; v++) {
-            auto sub = v == 1 ? QXmppRosterIq::Item::Both : v == 2 ? QXmppRosterIq::Item::To : QXmppRosterIq::Item::From;
-            if (e.bareJid() == bare && e.name() == QStringLiteral("n%1").arg(v) && e.subscriptionType() == sub &&
-                e.groups() == QSet<QString> { QStringLiteral("g%1").arg(v) }) {
-                return v;
-            }
+        QString sub;
+        switch (e.subscriptionType()) {
+        case QXmppRosterIq::Item::None: sub = "none"; break;
+        case QXmppRosterIq::Item::From: sub = "from"; break;
+        case QXmppRosterIq::Item::To: sub = "to"; break;
+        case QXmppRosterIq::Item::Both: sub = "both"; break;
+        case QXmppRosterIq::Item::Remove: sub = "remove"; break;
+        case QXmppRosterIq::Item::NotSet: sub = ""; break;
         }
-        return 99;  // present but not one of the items the server ever sent
+        QStringList groups = e.groups().values();
+        groups.sort();
+        return { { "x", e.bareJid() == bare ? 1 : 2 }, { "n", e.name() }, { "s", sub }, { "a", e.subscriptionStatus() },
+                 { "ap", e.isApproved() }, { "g", jarr(groups) }, { "mx", e.isMixChannel() }, { "p", e.mixParticipantId() } };
     }
 
     // what the client wrote during the step: roster requests, replies to the push with id pushId
@@ -117,7 +147,7 @@ struct Env {
         }
         QJsonObject view, pres;
         for (const auto &j : kUniverse) {
-            view[j] = versionOf(j);
+            view[j] = entryOf(j);
             auto res = rm->getResources(contactJid(j));
             auto keys = rm->getAllPresencesForBareJid(contactJid(j)).keys();
             QStringList l;
@@ -151,8 +181,8 @@ QString rosterItems(const QJsonObject &items)
 {
     QString xml;
     for (const auto &j : kUniverse) {
-        if (items.contains(j) && items[j].toInt() > 0) {
-            xml += itemXml(j, items[j].toInt());
+        if (items.contains(j) && items[j].toObject()["x"].toInt() > 0) {
+            xml += itemXml(j, items[j].toObject());
         }
     }
     return xml;
@@ -218,7 +248,7 @@ void runBehaviour(Ctx &ctx, LoopPeer &peer, const QString &caseId, const QJsonAr
                 if (first.isEmpty()) {
                     first = it["j"].toString();
                 }
-                xml += itemXml(it["j"].toString(), it["v"].toInt());
+                xml += itemXml(it["j"].toString(), it["it"].toObject());
             }
             pushId = QStringLiteral("push%1").arg(++e.pushNo);
             const auto from = fromAttr(s["from"].toString(), first);
